@@ -78,7 +78,9 @@ class ScriptedOptimizer(Optimizer):
         x0 = initial_values if mask is None else initial_values[mask]
         opts = self._config.optimizer.options
         script = opts["script"] if isinstance(opts, dict) and "script" in opts else ScriptPlugin.script
-        for item in script:
+        for number, item in enumerate(script, start=1):
+            if ScriptPlugin.on_request is not None:
+                ScriptPlugin.on_request(number)
             if item.get("batch") is not None:
                 x = np.array(item["batch"], dtype=np.float64)
             elif item.get("x") is not None:
@@ -88,6 +90,8 @@ class ScriptedOptimizer(Optimizer):
             ScriptPlugin.requests.append({"x": x.tolist(), "f": item["f"], "g": item["g"]})
             f, g = self._cb(x, return_functions=item["f"], return_gradients=item["g"])
             ScriptPlugin.returns.append((np.array(f).copy(), np.array(g).copy()))
+        if ScriptPlugin.on_request is not None:
+            ScriptPlugin.on_request(len(script) + 1)
 
     @property
     def allow_nan(self):
@@ -105,11 +109,13 @@ class ScriptPlugin(OptimizerPlugin):
     allow_nan = False
     parallel = False
     started_with = None
+    on_request = None          # optional hook called with the request number before each request and before returning
 
     @classmethod
-    def reset(cls, script, allow_nan=False, parallel=False):
+    def reset(cls, script, allow_nan=False, parallel=False, on_request=None):
         cls.script, cls.returns, cls.requests = list(script), [], []
         cls.allow_nan, cls.parallel, cls.started_with = allow_nan, parallel, None
+        cls.on_request = on_request
 
     def create(self, config, optimizer_callback):
         return ScriptedOptimizer(config, optimizer_callback)
